@@ -9,6 +9,7 @@ require (
 	github.com/IBM/TSS/mpc/bls v0.0.0
 	github.com/IBM/TSS/mpc/ps v0.0.0
 	github.com/IBM/mathlib v0.0.3-0.20230831091907-c532c4d3b65c
+	github.com/golang/protobuf v1.5.2
 )
 
 require (
@@ -23,7 +24,6 @@ require (
 	github.com/decred/dcrd/dcrec/edwards/v2 v2.0.3 // indirect
 	github.com/decred/dcrd/dcrec/secp256k1/v4 v4.0.1 // indirect
 	github.com/gogo/protobuf v1.3.2 // indirect
-	github.com/golang/protobuf v1.5.2 // indirect
 	github.com/hashicorp/errwrap v1.0.0 // indirect
 	github.com/hashicorp/go-multierror v1.1.1 // indirect
 	github.com/hyperledger/fabric-amcl v0.0.0-20230602173724-9e02669dceb2 // indirect
